@@ -35,7 +35,7 @@ class C13(Check):
     level = "exploration"
     engine = "compsim"
     rule = ("one evaluation = one op sequence (batch sizes, reseeds, pickle restarts) on one HaltonSampler or RSequenceSampler "
-            "of 1-40 dims plus twin objects, or one probe of the public halton() helper at start indices biased to carries; every "
+            "of 1-40 dims (unit cube, or a box with non-zero lower bounds whose affine map is undone) plus twin objects, or one probe of the public halton() helper at start indices biased to carries; every "
             "emitted point is compared with the reference sequence; non-trivial = at least two batches on the same object; "
             "distinct = distinct (kind, dims, op-kind sequence, batch sizes)")
     assumptions = ["HaltonSampler/RSequenceSampler/halton(): real code", "pre-snap values observed through a pass-through at the module's digitize_data name; "
